@@ -11,7 +11,8 @@ from fracexec import frac_str, frac_list
 
 MODULE = 'UwgVerif.Props.C20'
 THEOREMS = ['Uwg.C20.procmat_preserves', 'Uwg.C20.procmat_preserves_measure', 'Uwg.C20.procmat_shape',
-            'Uwg.C20.asis_thin_layer_shrinks', 'Uwg.C20.pad_index', 'Uwg.C20.pad_total']
+            'Uwg.C20.asis_thin_layer_shrinks', 'Uwg.C20.pad_index', 'Uwg.C20.pad_total',
+            'Uwg.C20.column_index_set']
 EPW = 'resources/SGP_Singapore.486980_IWEC.epw'
 PARAM = 'resources/initialize_singapore.uwg'
 
@@ -184,6 +185,10 @@ def run(chk):
                             ' idx=' + ('unset' if idx is None else str(idx)))
         except IndexError:
             outs = ['err index', 'err index']
+        except Exception as e:  # noqa
+            if 'deeper than the deepest ground temperature depth' not in str(e):
+                raise
+            outs = ['err refused', 'err refused']       # generate() refuses: neither column exists
         # the column the canyon model really simulates
         if outs[0].startswith('ok'):
             ucm_road = m.UCM.road
